@@ -289,10 +289,12 @@ class DelAttrMethod(MethodDescriptor):
                     invalidate_attrs(self, attr)
                 return None
 
+            # Prepare the default exactly as the constructor (and assignment)
+            # would, so that a reset attribute holds what a new instance holds.
             return mutate_attr(
                 obj=self,
                 attr=attr,
-                value=default,
+                value=prepare_attr_value(attr_spec, self, default),
                 inplace=True,
                 force=True,
                 skip_invalidation=skip_invalidation,
